@@ -609,3 +609,86 @@ def bounded_get_capabilities(pid, tier, seed):
             "{with, without an unknown capability} + NO replies: %d listings" % evals, "rule": "distinct = listing", "evaluations": evals,
             "distinct": evals, "samples": samples, "exhaustive": True,
             "violations": [("%s.B.get_capabilities.%s" % (pid, k), w, d) for k, (w, d) in sorted(findings.items())]}
+
+
+# ----------------------------------------------------------------------------- RFC 5804 example transcripts
+
+def bounded_rfc_transcripts(pid, tier, seed):
+    """the server replies printed in the examples of RFC 5804 (sections 1.x, 2.x), replayed to the real client: what the
+    client reports must be what the example means.  Cases that are listed findings (names sent as literals with ACTIVE,
+    escaped quotes, OK with a literal text, NO with a code and no text) are not in this pool."""
+    import unittest.mock as mock
+    from sievelib import managesieve
+    evals = 0
+    violations = []
+    samples = []
+
+    def case(name, replies, op, args, expect, extra=None):
+        nonlocal evals
+        evals += 1
+        sock = CannedSocket(list(replies))
+        c = client_on(sock)
+        try:
+            got = ("return", getattr(c, op)(*args))
+        except managesieve.Error as e:
+            got = ("Error", str(e))
+        except Exception as e:
+            got = ("crash", "%s: %s" % (type(e).__name__, e))
+        bad = None
+        if got != expect:
+            bad = "%s%r -> %r, the example means %r" % (op, tuple(args), got, expect)
+        elif extra is not None:
+            bad = extra(c)
+        elif sock.outq:
+            bad = "reply bytes left unread: %r" % sock.outq[:40]
+        if bad:
+            violations.append(("%s.B.rfc5804.%s" % (pid, name), {"op": op, "replies": [r.decode("latin-1") for r in replies]}, bad))
+        elif len(samples) < 3:
+            samples.append({"example": name, "verdict": "as the RFC means it"})
+
+    listing = b'"summer_script"\r\n"vacation_script"\r\n{13}\r\nclever"script\r\n"main_script" ACTIVE\r\nOK\r\n'
+    case("2.7-listscripts", [listing], "listscripts", (), ("return", ("main_script", ["summer_script", "vacation_script", 'clever"script'])))
+    case("2.7-listscripts-empty", [b"OK\r\n"], "listscripts", (), ("return", (None, [])))
+    body = b'#this is my wonderful script\r\nreject "I reject all";\r\n'
+    case("2.9-getscript", [b"{%d}\r\n" % len(body) + body + b"\r\nOK\r\n"], "getscript", ("myscript",),
+         ("return", '#this is my wonderful script\nreject "I reject all";'))
+    case("2.9-getscript-nonexistent", [b'NO (NONEXISTENT) "There is no script by that name"\r\n'], "getscript", ("myscript",), ("return", None),
+         lambda c: None if (c.errcode == b"NONEXISTENT" and c.errmsg == b"There is no script by that name") else "errcode %r errmsg %r" % (c.errcode, c.errmsg))
+    case("2.6-putscript-ok", [b"OK\r\n"], "putscript", ("foo", 'redirect "test@example.com";\r\n'), ("return", True))
+    case("2.6-putscript-syntax-error", [b'NO "line 2: Syntax error"\r\n'], "putscript", ("mysievescript", "bad"), ("return", False),
+         lambda c: None if (c.errcode == b"" and c.errmsg == b"line 2: Syntax error") else "errcode %r errmsg %r" % (c.errcode, c.errmsg))
+    case("2.6-putscript-warnings", [b'OK (WARNINGS) "line 8: server redirect action limit is 2, this redirect might be ignored"\r\n'],
+         "putscript", ("foo", "x"), ("return", True))
+    case("2.6-putscript-quota", [b'NO (QUOTA/MAXSIZE) "Quota exceeded"\r\n'], "putscript", ("foo", "x"), ("return", False),
+         lambda c: None if (c.errcode == b"QUOTA/MAXSIZE" and c.errmsg == b"Quota exceeded") else "errcode %r errmsg %r" % (c.errcode, c.errmsg))
+    case("2.5-havespace-ok", [b"OK\r\n"], "havespace", ("myscript", 999999), ("return", True))
+    case("2.5-havespace-quota", [b'NO (QUOTA/MAXSIZE) "Quota exceeded"\r\n'], "havespace", ("foobar", 435), ("return", False))
+    case("2.8-setactive-ok", [b"OK\r\n"], "setactive", ("vacationscript",), ("return", True))
+    case("2.8-setactive-nonexistent", [b'NO (NONEXISTENT) "There is no script by that name"\r\n'], "setactive", ("baz",), ("return", False))
+    case("2.10-deletescript-ok", [b"OK\r\n"], "deletescript", ("foo",), ("return", True))
+    case("2.10-deletescript-active", [b'NO (ACTIVE) "You may not delete an active script"\r\n'], "deletescript", ("baz",), ("return", False),
+         lambda c: None if (c.errcode == b"ACTIVE" and c.errmsg == b"You may not delete an active script") else "errcode %r errmsg %r" % (c.errcode, c.errmsg))
+    case("2.12-checkscript-ok", [b"OK\r\n"], "checkscript", ("#comment\r\nInvalidSieveCommand\r\n",), ("return", True))
+    case("2.12-checkscript-error", [b'NO "line 2: Syntax error"\r\n'], "checkscript", ("bad",), ("return", False))
+    case("2.11-renamescript-ok", [b"OK\r\n"], "renamescript", ("foo", "bar"), ("return", True))
+    case("2.11-renamescript-exists", [b'NO (ALREADYEXISTS) "A script with that name already exists"\r\n'], "renamescript", ("baz", "bar"), ("return", False))
+    case("1.3-bye-referral", [b'BYE (REFERRAL "sieve://sieve.example.net") "Server is busy, try again later"\r\n'], "listscripts", (), ("Error", "Connection closed by server"))
+    case("literal-error-text", [b'NO {31}\r\nQuota exceeded (and more lines)\r\n'], "putscript", ("foo", "x"), ("return", False),
+         lambda c: None if c.errmsg == b"Quota exceeded (and more lines)" else "errmsg %r" % (c.errmsg,))
+    cap = (b'"IMPLEMENTATION" "Example1 ManageSieved v001"\r\n"VERSION" "1.0"\r\n"SASL" "DIGEST-MD5 GSSAPI"\r\n"SIEVE" "fileinto vacation"\r\n'
+           b'"STARTTLS"\r\n"NOTIFY" "xmpp mailto"\r\n"MAXREDIRECTS" "5"\r\nOK\r\n')
+    evals += 1
+    sock = CannedSocket([])
+    sock.outq = cap
+    c = managesieve.Client("reference.example")
+    c.sock = sock
+    try:
+        ok = c._Client__get_capabilities()
+        facts = (ok, c.get_implementation(), c.get_sasl_mechanisms(), c.has_tls_support(), c.get_sieve_capabilities())
+    except Exception as e:
+        facts = ("crash", "%s: %s" % (type(e).__name__, e))
+    want = (True, "Example1 ManageSieved v001", ["DIGEST-MD5", "GSSAPI"], True, ["fileinto", "vacation"])
+    if facts != want:
+        violations.append(("%s.B.rfc5804.1.7-capability-greeting" % pid, {"greeting": cap.decode()}, "client recorded %r, the example means %r" % (facts, want)))
+    return {"name": "rfc5804-examples", "bound": "%d example exchanges of RFC 5804 replayed to the client" % evals, "rule": "distinct = example",
+            "evaluations": evals, "distinct": evals, "samples": samples, "exhaustive": True, "violations": violations}
